@@ -143,7 +143,60 @@ class _AsyncTCPClientTarget(_Target):
             self.peer_sock.close()
 
 
-TARGETS: list[type[_Target]] = [_AsyncTCPClientTarget]
+class _ServerSideClientTarget(_Target):
+    """The client object that AsyncTCPNetworkServer hands to the request handler; the senders are tasks that share it."""
+
+    name = "server-side client send_packet (AsyncTCPNetworkServer)"
+
+    async def setup(self) -> None:
+        from easynetwork.protocol import StreamProtocol
+        from easynetwork.servers.handlers import AsyncStreamRequestHandler
+
+        from .. import srvharness
+
+        got: dict[str, Any] = {}
+        ready = asyncio.Event()
+
+        class Handler(AsyncStreamRequestHandler[Any, Any]):
+            async def handle(self, client: Any) -> Any:
+                got["client"] = client
+                ready.set()
+                while True:
+                    yield
+
+        self.fx = srvharness.TCPServerFixture(StreamProtocol(_serializer(self.nchunks)), Handler())
+        await self.fx.start()
+        self.mc = self.fx.connect()
+        tr = self.mc.server_side
+        orig_send_all = tr.send_all
+        target = self
+
+        async def send_all(data: Any) -> None:
+            # one gate passage per chunk, as the in-memory transport of the client target does
+            await target.send_hook(bytes(data))
+            await orig_send_all(data)
+
+        async def send_all_from_iterable(it: Any) -> None:
+            for data in it:
+                await send_all(data)
+
+        tr.send_all = send_all  # type: ignore[method-assign]
+        tr.send_all_from_iterable = send_all_from_iterable  # type: ignore[method-assign]
+        await asyncio.wait_for(ready.wait(), 5)
+        self.client = got["client"]
+
+    async def send(self, packet: tuple[int, int]) -> None:
+        await self.client.send_packet(packet)
+
+    async def teardown(self) -> None:
+        for t in self.tasks.values():
+            if t is not None:
+                t.cancel()
+        await harness.settle()
+        await self.fx.stop()
+
+
+TARGETS: list[type[_Target]] = [_AsyncTCPClientTarget, _ServerSideClientTarget]
 
 
 def _cfg(path: str, nsenders: int, nchunks: int, pkts: int, maxcancel: int, liveness: bool) -> dict[str, str]:
